@@ -9,7 +9,8 @@ git -C /repo worktree remove --force $WT >/dev/null 2>&1
 git -C /repo worktree add -q $WT HEAD || exit 3
 cd $WT
 git apply --check $PATCH 2>/dev/null || { echo "$PROP/$N PATCH-DOES-NOT-APPLY"; cd /; git -C /repo worktree remove --force $WT; exit 2; }
-PKGDIR=$(head -20 $DEMO | grep -oE '(registration|rotation|tls|types|protocol|net|storage/file|storage/inmem|storage/testing|util/[a-z]+)/' | head -1); PKGDIR=${PKGDIR%/}; [ -z "$PKGDIR" ] && PKGDIR=.
+PKGDIR=${4:-}
+[ -z "$PKGDIR" ] && PKGDIR=$(head -20 $DEMO | grep -iE "copy|place|put|into" | grep -oE '(registration|rotation|tls|types|protocol|net|storage/file|storage/inmem|storage/testing|util/[a-z]+)/' | head -1); PKGDIR=${PKGDIR%/}; [ -z "$PKGDIR" ] && PKGDIR=.
 demo() { cp $DEMO $WT/$PKGDIR/zz_demo${N}_test.go; go test -vet=off -count=1 -timeout 10m -run "Demo|demo|C[0-9][0-9]|Seed" ./$PKGDIR/ >/tmp/seedv-$PROP-$N.$1.log 2>&1; rc=$?; rm -f $WT/$PKGDIR/zz_demo${N}_test.go; return $rc; }
 demo without; W0=$?
 git apply $PATCH
